@@ -51,6 +51,16 @@ declare -A CHECKS=(
  [R4-C12B-advance-indexes-without-carry-loop]="C12 C05"
  [R4-C13A-evaluation-stack-free-list-dirty]="C13 C06"
  [R4-C17A-serialize-memo-copied-by-append]="C17 C08"
+ [R5-C03A-seal-forgets-per-block-symbol-counts]="C03 C09"
+ [R5-C04A-non-boolean-expression-taken-for-true]="C04"
+ [R5-C05A-mul-overflow-by-division-check]="C05 C06"
+ [R5-C06B-symbol-str-bound-on-empty-table]="C06 C10"
+ [R5-C07A-sealed-container-helper-omits-key-id]="C07 C16"
+ [R5-C08A-clone-blocks-symbol-counts-off-by-one]="C08 C02"
+ [R5-C09B-seal-fork-forgets-symbol-counts]="C09 C02"
+ [R5-C10A-binary-op-table-negative-kind]="C10"
+ [R5-C15A-function-token-list-splits-names]="C15 C14"
+ [R5-C17B-empty-block-append-returns-equivalent-token]="C17 C08"
 )
 out=${OUT:-seeded/MATRIX.md}
 { echo "# Seeded changes x checks (quick tier, VERIF_SEED=${VERIF_SEED:-1}, /repo $(git -C /repo rev-parse --short HEAD))"; echo
